@@ -47,6 +47,16 @@ def main(tier, replay, t0):
                     viol.append(Violation("duplicate-vertex-impl", dup[0]["code"],
                                           "module does not compile: %s" % dup[0]["message"],
                                           dict(base, rustc=[d["message"] for d in dup][:3])))
+                    continue
+                bad = [d for d in probes.unexpected_rejection(camp, c.id, x["id"])
+                       if any(k in (d.get("rendered") or d.get("message") or "") for k in
+                              ("VertexEntry", "VertexBufferLayout", "VERTEX_ATTRIBUTES",
+                               "vertex_buffer_layout", "VertexStepMode"))]
+                if bad:
+                    viol.append(Violation("vertex-helpers-do-not-compile", bad[0].get("code")
+                                          or "?", "the module's vertex helpers are rejected by "
+                                          "rustc: %s" % bad[0].get("message"),
+                                          dict(base, rustc=[d["message"] for d in bad][:3])))
                 continue
             ps = camp.probe_state(c.id, x["id"], "probe_c07")
             if not ps or not ps["accepted"]:
